@@ -31,9 +31,14 @@ def val(v, st):
 
 
 def jump(st, cur):
+    old = cur.pos
     st.fields["_jump"] = st.fields.get("_jump", 0) + 1
     cur.pos = st.fields["_jump"] * 100000
     cur.exact = False
+    if cur.id == "main":
+        mc = dict(st.fields.get("_minc", {}))
+        mc[cur.pos] = mc.get(old, 0)
+        st.fields["_minc"] = mc
 
 
 def stream(I, st, cid):
@@ -47,6 +52,10 @@ def la_at(I, st, cid, off=0):
 
 def eof_known(st, strm, pos):
     """True: definitely EOF at pos; False: definitely a char; None unknown."""
+    cf = st.cs.get(("LA", strm, pos))
+    if cf is not None and not cf.possible("\0"):
+        # a look-ahead (peek_next) already showed a real character here
+        return False
     m = st.fields.get("_eof", {})
     for (s, p), v in m.items():
         if s != strm:
@@ -110,6 +119,10 @@ def do_advance(I, st, cid, n, via):
     kind = "consume" if cid == "main" else "la_consume"
     I.emit(st, kind, n, cursor=cid, count=Const("int", 1), chars=[la], via=via, pos=c.pos, facts=st.cf(la))
     c.pos += 1
+    if cid == "main":
+        mc = dict(st.fields.get("_minc", {}))
+        mc[c.pos] = mc.get(c.pos - 1, 0) + 1
+        st.fields["_minc"] = mc
     return la
 
 
@@ -150,6 +163,10 @@ def c_advance_by(I, callee, args, st, n, fidx):
         chars = [LA(strm, c.pos, i) for i in range(cnt.v)]
         I.emit(st, kind, n, cursor=cid, count=cnt, chars=chars, via="advance_by", pos=c.pos,
                facts=[st.cf(x) for x in chars])
+        if cid == "main":
+            mc = dict(st.fields.get("_minc", {}))
+            mc[c.pos + cnt.v] = mc.get(c.pos, 0)
+            st.fields["_minc"] = mc
         c.pos += cnt.v
     else:
         I.emit(st, kind, n, cursor=cid, count=cnt, chars=None, via="advance_by", pos=c.pos, facts=None,
@@ -816,6 +833,28 @@ def s_len(I, callee, args, st, n, fidx):
     return val(Term("len", (args[0],), "usize"), st)
 
 
+def snap_of(v):
+    """(unit, stream, pos, delta) when v is a cursor snapshot: byte offset (source_len - remaining_len) or
+    char offset (char_offset), possibly wrapped in ByteOffset/CharOffset/into and +/- a constant."""
+    d = 0
+    for _ in range(10):
+        if isinstance(v, Enum) and (v.path.endswith("ByteOffset") or v.path.endswith("CharOffset")) and v.args:
+            v = v.args[0]
+        elif isinstance(v, Term) and (v.op == "into" or v.op.startswith("cast:")) and v.args:
+            v = v.args[0]
+        elif isinstance(v, Term) and v.op in ("bin:Sub", "bin:Add") and len(v.args) == 2 and isinstance(v.args[1], Const) and v.args[1].t == "int":
+            d += v.args[1].v if v.op == "bin:Add" else -v.args[1].v
+            v = v.args[0]
+        elif isinstance(v, Term) and v.op == "bin:Sub" and isinstance(v.args[0], Term) and v.args[0].op == "source_len" \
+                and isinstance(v.args[1], Term) and v.args[1].op == "remaining_len":
+            return ("byte", v.args[1].args[0].v, v.args[1].args[1].v, d)
+        elif isinstance(v, Term) and v.op == "char_offset" and v.args:
+            return ("char", v.args[0].v, v.args[1].v, d)
+        else:
+            break
+    return None
+
+
 def byte_snapshot(v):
     """If v is a byte-offset snapshot of the main cursor (possibly wrapped), return (stream, pos, delta)."""
     d = 0
@@ -1079,6 +1118,46 @@ def m_is_mnemonic(I, callee, args, st, n, fidx):
 @prim("macro::is_macro_stat")
 def m_is_macro_stat(I, callee, args, st, n, fidx):
     return val(Term("is_macro_stat", (args[0],), "bool"), st)
+
+
+def numeric_token_types(I):
+    """TokenType constants that numeric.rs can put into NumericParserResult.token (read from its HIR)."""
+    if not hasattr(I, "_numtt"):
+        tts = set()
+        for name, b in I.fx.bodies.items():
+            if not name.startswith("numeric::"):
+                continue
+            for node, par in F.walk(b["hir"]):
+                if node.get("k") == "Path":
+                    c = F.const_of(node)
+                    if c and c.startswith("token_type::TokenType::"):
+                        tts.add(c.split("::")[-1])
+        I._numtt = frozenset(tts)
+    return I._numtt
+
+
+@prim("numeric::try_parse_decimal", "numeric::try_parse_hex_integer")
+def num_parse(I, callee, args, st, n, fidx):
+    """Opaque summary of the numeric.rs parsers (value-level; see DESIGN C08): Option<NumericParserResult>
+    whose token type is one of the constants numeric.rs can produce."""
+    t = Term("numparse:" + callee.split("::")[-1], tuple(args), "Option<NumericParserResult>")
+    tt = Term("numtok", (t,), "token_type::TokenType")
+    res = Enum("numeric::NumericParserResult", [], {
+        "token": Tup([tt, Term("numpayload", (t,), "Payload")]),
+        "length": Term("numlen", (t,), "NonZeroUsize"),
+        "error": Term("numerr", (t,), "Option<ErrorKind>"),
+    })
+    key = ("b", t.key())
+    if key in st.bfacts:
+        if st.bfacts[key]:
+            return val(some(res), st)
+        return val(NONE, st)
+    s2 = st.clone()
+    s2.bfacts[key] = False
+    s2.conds.append("%s is None" % (t.op,))
+    st.bfacts[key] = True
+    st.vfacts[tt.key()] = (numeric_token_types(I), frozenset())
+    return [Out("val", some(res), st), Out("val", NONE, s2)]
 
 
 def default_external(I, callee, args, st, n, fidx):
